@@ -24,7 +24,7 @@ var allVersions = []p.ProtocolVersion{p.ProtocolVersion2, p.ProtocolVersion3, p.
 
 type numCode struct {
 	bits    int
-	isValid func(uint64) bool          // nil: the type has no validity predicate (flag types)
+	isValid func(uint64) bool             // nil: the type has no validity predicate (flag types)
 	checks  []func(uint64) (bool, string) // each returns (accepted, name)
 	str     func(uint64) string
 }
@@ -44,7 +44,9 @@ func anyVersion(f func(v p.ProtocolVersion) error) bool {
 var numCodes = map[string]numCode{
 	"ProtocolVersion": {8, func(x uint64) bool { return p.ProtocolVersion(x).IsSupported() },
 		[]func(uint64) (bool, string){
-			func(x uint64) (bool, string) { return okErr(p.CheckSupportedProtocolVersion(p.ProtocolVersion(x))), "CheckSupportedProtocolVersion" },
+			func(x uint64) (bool, string) {
+				return okErr(p.CheckSupportedProtocolVersion(p.ProtocolVersion(x))), "CheckSupportedProtocolVersion"
+			},
 			func(x uint64) (bool, string) {
 				v := p.ProtocolVersion(x)
 				return v.IsOss() != v.IsDse(), "exactly one of IsOss/IsDse"
@@ -65,7 +67,9 @@ var numCodes = map[string]numCode{
 		},
 		func(x uint64) string { return p.OpCode(x).String() }},
 	"ResultType": {32, func(x uint64) bool { return p.ResultType(x).IsValid() },
-		[]func(uint64) (bool, string){func(x uint64) (bool, string) { return okErr(p.CheckValidResultType(p.ResultType(x))), "CheckValidResultType" }},
+		[]func(uint64) (bool, string){func(x uint64) (bool, string) {
+			return okErr(p.CheckValidResultType(p.ResultType(x))), "CheckValidResultType"
+		}},
 		func(x uint64) string { return p.ResultType(x).String() }},
 	"ErrorCode": {32, func(x uint64) bool { return p.ErrorCode(x).IsValid() },
 		[]func(uint64) (bool, string){func(x uint64) (bool, string) {
@@ -81,7 +85,9 @@ var numCodes = map[string]numCode{
 		func(x uint64) string { return p.ErrorCode(x).String() }},
 	"ConsistencyLevel": {16, func(x uint64) bool { return p.ConsistencyLevel(x).IsValid() },
 		[]func(uint64) (bool, string){
-			func(x uint64) (bool, string) { return okErr(p.CheckValidConsistencyLevel(p.ConsistencyLevel(x))), "CheckValidConsistencyLevel" },
+			func(x uint64) (bool, string) {
+				return okErr(p.CheckValidConsistencyLevel(p.ConsistencyLevel(x))), "CheckValidConsistencyLevel"
+			},
 			func(x uint64) (bool, string) {
 				c := p.ConsistencyLevel(x)
 				return c.IsSerial() != c.IsNonSerial(), "exactly one of IsSerial/IsNonSerial"
@@ -98,7 +104,9 @@ var numCodes = map[string]numCode{
 		}},
 		func(x uint64) string { return p.DataTypeCode(x).String() }},
 	"BatchType": {8, func(x uint64) bool { return p.BatchType(x).IsValid() },
-		[]func(uint64) (bool, string){func(x uint64) (bool, string) { return okErr(p.CheckValidBatchType(p.BatchType(x))), "CheckValidBatchType" }},
+		[]func(uint64) (bool, string){func(x uint64) (bool, string) {
+			return okErr(p.CheckValidBatchType(p.BatchType(x))), "CheckValidBatchType"
+		}},
 		func(x uint64) string { return p.BatchType(x).String() }},
 	"BatchChildType": {8, func(x uint64) bool { return p.BatchChildType(x).IsValid() }, nil,
 		func(x uint64) string { return p.BatchChildType(x).String() }},
@@ -108,7 +116,9 @@ var numCodes = map[string]numCode{
 		}},
 		func(x uint64) string { return p.DseRevisionType(x).String() }},
 	"FailureCode": {16, func(x uint64) bool { return p.FailureCode(x).IsValid() },
-		[]func(uint64) (bool, string){func(x uint64) (bool, string) { return okErr(p.CheckValidFailureCode(p.FailureCode(x))), "CheckValidFailureCode" }},
+		[]func(uint64) (bool, string){func(x uint64) (bool, string) {
+			return okErr(p.CheckValidFailureCode(p.FailureCode(x))), "CheckValidFailureCode"
+		}},
 		func(x uint64) string { return p.FailureCode(x).String() }},
 	// flag types: no validity predicate; only the "specific name" clause applies
 	"HeaderFlag":    {8, nil, nil, func(x uint64) string { return p.HeaderFlag(x).String() }},
@@ -298,7 +308,9 @@ func TestC19(t *testing.T) {
 				rt.Fatalf("%s", msg)
 			}
 		}
-		rec.Case(true, x, func() string { return fmt.Sprintf("32-bit value %#x against ResultType/ErrorCode/DseRevisionType/flag types", x) }, "rapid32")
+		rec.Case(true, x, func() string {
+			return fmt.Sprintf("32-bit value %#x against ResultType/ErrorCode/DseRevisionType/flag types", x)
+		}, "rapid32")
 	})
 
 	// --- string-typed codes: declared + near misses
@@ -437,14 +449,22 @@ func c19Capabilities(t *testing.T, rec *stats.Recorder) {
 		{"SupportsSchemaChangeTarget(FUNCTION)", func(v p.ProtocolVersion) bool { return v.SupportsSchemaChangeTarget(p.SchemaChangeTargetFunction) }, "001111"},
 		{"SupportsSchemaChangeTarget(AGGREGATE)", func(v p.ProtocolVersion) bool { return v.SupportsSchemaChangeTarget(p.SchemaChangeTargetAggregate) }, "001111"},
 		{"SupportsSchemaChangeTarget(undeclared)", func(v p.ProtocolVersion) bool { return v.SupportsSchemaChangeTarget(p.SchemaChangeTarget("VIEW")) }, "000000"},
-		{"CheckValidSchemaChangeTarget(TYPE)", func(v p.ProtocolVersion) bool { return p.CheckValidSchemaChangeTarget(p.SchemaChangeTargetType, v) == nil }, "011111"},
-		{"CheckValidSchemaChangeTarget(FUNCTION)", func(v p.ProtocolVersion) bool { return p.CheckValidSchemaChangeTarget(p.SchemaChangeTargetFunction, v) == nil }, "001111"},
+		{"CheckValidSchemaChangeTarget(TYPE)", func(v p.ProtocolVersion) bool {
+			return p.CheckValidSchemaChangeTarget(p.SchemaChangeTargetType, v) == nil
+		}, "011111"},
+		{"CheckValidSchemaChangeTarget(FUNCTION)", func(v p.ProtocolVersion) bool {
+			return p.CheckValidSchemaChangeTarget(p.SchemaChangeTargetFunction, v) == nil
+		}, "001111"},
 		{"SupportsTopologyChangeType(NEW_NODE)", func(v p.ProtocolVersion) bool { return v.SupportsTopologyChangeType(p.TopologyChangeTypeNewNode) }, "111111"},
 		{"SupportsTopologyChangeType(REMOVED_NODE)", func(v p.ProtocolVersion) bool { return v.SupportsTopologyChangeType(p.TopologyChangeTypeRemovedNode) }, "111111"},
 		{"SupportsTopologyChangeType(MOVED_NODE)", func(v p.ProtocolVersion) bool { return v.SupportsTopologyChangeType(p.TopologyChangeTypeMovedNode) }, "01????"},
-		{"SupportsDseRevisionType(Cancel)", func(v p.ProtocolVersion) bool { return v.SupportsDseRevisionType(p.DseRevisionTypeCancelContinuousPaging) }, "000011"},
+		{"SupportsDseRevisionType(Cancel)", func(v p.ProtocolVersion) bool {
+			return v.SupportsDseRevisionType(p.DseRevisionTypeCancelContinuousPaging)
+		}, "000011"},
 		{"SupportsDseRevisionType(MorePages)", func(v p.ProtocolVersion) bool { return v.SupportsDseRevisionType(p.DseRevisionTypeMoreContinuousPages) }, "000001"},
-		{"CheckValidDseRevisionType(MorePages)", func(v p.ProtocolVersion) bool { return p.CheckValidDseRevisionType(p.DseRevisionTypeMoreContinuousPages, v) == nil }, "000001"},
+		{"CheckValidDseRevisionType(MorePages)", func(v p.ProtocolVersion) bool {
+			return p.CheckValidDseRevisionType(p.DseRevisionTypeMoreContinuousPages, v) == nil
+		}, "000001"},
 		{"CheckDseProtocolVersion", func(v p.ProtocolVersion) bool { return p.CheckDseProtocolVersion(v) == nil }, "000011"},
 		{"SupportsModernFramingLayout", func(v p.ProtocolVersion) bool { return v.SupportsModernFramingLayout() }, "000100"},
 		{"SupportsUnsetValues", func(v p.ProtocolVersion) bool { return v.SupportsUnsetValues() }, "001111"},
